@@ -1448,6 +1448,32 @@ class Executor:
             return PyFn(table[name], 'list.' + name)
         if name in getattr(obj, 'attrs', {}):
             return obj.attrs[name]
+        if name in ('ravel', 'flatten') and obj.kind == 'ndarray':
+            def ravel(*a, **k):
+                if a or k:
+                    raise Unsupported('ravel with an order argument')
+                return VList(self._flat_leaves(obj), 'ndarray')        # logical (C) order
+            return PyFn(ravel, 'ndarray.' + name)
+        if name == 'reshape' and obj.kind == 'ndarray':
+            def reshape(*shp):
+                if len(shp) == 1 and isinstance(shp[0], (tuple, list, VList)):
+                    shp = tuple(self.iterate(shp[0]))
+                shp = [int(exact(x)) for x in shp]
+                leaves = self._flat_leaves(obj)
+                import math as _m
+                if -1 in shp:
+                    known = _m.prod(x for x in shp if x != -1)
+                    shp[shp.index(-1)] = len(leaves) // max(known, 1)
+                if _m.prod(shp) != len(leaves):
+                    raise PyRaise('ValueError', 'cannot reshape array of size %d into shape %s' % (len(leaves), tuple(shp)))
+                it = iter(leaves)
+
+                def build(dims):
+                    if len(dims) == 1:
+                        return VList([next(it) for _ in range(dims[0])], 'ndarray')
+                    return VList([build(dims[1:]) for _ in range(dims[0])], 'ndarray')
+                return build(shp)
+            return PyFn(reshape, 'ndarray.reshape')
         if name == 'transpose' and obj.kind == 'ndarray':
             return PyFn(lambda *a, **k: self.call(self.lib_attr('numpy', 'transpose'), [obj] + ([a[0]] if len(a) == 1 else ([VList(list(a))] if a else [])), k), 'ndarray.transpose')
         if name == 'sum' and obj.kind == 'ndarray':
@@ -1873,6 +1899,15 @@ class Executor:
                         return VList([build(prefix + [i], dims[1:]) for i in range(dims[0])], 'ndarray')
                     return build([], new_shape)
                 return PyFn(transpose, 'numpy.transpose')
+            if name == 'prod':
+                def prod(x, *a, **k):
+                    if isinstance(x, (tuple, list, VList)) and not a and not k:
+                        r = 1
+                        for i in self.iterate(x):
+                            r = self.binop(ast.Mult(), r, i)
+                        return r
+                    return Tm('call:lib:numpy.prod', x, *a)
+                return PyFn(prod, 'numpy.prod')
             if name == 'mean':
                 def mean(x, *a, **k):
                     if isinstance(x, VList) and not a and not k and all(is_scalar(exact(i)) for i in x.items) and x.items:
